@@ -101,7 +101,8 @@ def _foreign_products(L, names, hashseed):
     env = dict(os.environ, PYTHONHASHSEED=str(int(hashseed)), PYTHONPATH=root, PYTHONDONTWRITEBYTECODE='1')
     p = subprocess.run([sys.executable, '-c', _FOREIGN % (list(names),)], env=env, capture_output=True, timeout=120)
     if p.returncode != 0:
-        raise RuntimeError('the saving interpreter failed: %s' % p.stderr.decode()[-300:])
+        from .core import HarnessError      # (the second interpreter did not run: the simulator's problem, never a verdict on lentil)
+        raise HarnessError('the saving interpreter failed: %s' % p.stderr.decode()[-300:])
     objs = pickle.loads(p.stdout)
     planes, waves = objs[:-3], objs[-3:]
     local_w = [L.Wavefront(5e-7), L.Wavefront(5e-7, ptype=L.pupil, focal_length=2.0), L.Wavefront(5e-7, ptype=L.image)]
@@ -240,7 +241,8 @@ def _foreign_seeded(L, hashseed):
             env['PYTHONHASHSEED'] = str(int(hs))
         p = subprocess.run([sys.executable, '-c', _FOREIGN_SEEDED], env=env, capture_output=True, timeout=180)
         if p.returncode != 0:
-            raise RuntimeError('the second interpreter failed: %s' % p.stderr.decode()[-300:])
+            from .core import HarnessError
+            raise HarnessError('the second interpreter failed: %s' % p.stderr.decode()[-300:])
         res.append(json.loads(p.stdout.decode()))
     return {k: (res[0][k], res[1].get(k)) for k in res[0]}
 
